@@ -123,7 +123,7 @@ def gen_case(rng, pool, big=False, avoid_trunc=True):
     maxd = rng.choice([1, 2, 3, 5, 8])
     steps = [0, 1, 1, 2, 7, 50, 100, 999, 1000, 1001, 12345] + ([10**6 + 1, 10**9 + 5] if rng.random() < 0.2 else [])
     last_tid = None
-    recursion = rng.random() < 0.3
+    recursion = rng.random() < 0.4
     while budget > 0:
         tid = rng.choice(tasks)[0]
         st = stacks[tid]
@@ -134,7 +134,10 @@ def gen_case(rng, pool, big=False, avoid_trunc=True):
         if st and (len(st) >= maxd or rng.random() < 0.45):
             recs.append((tid, False, st.pop(), clock))
         else:
-            k = st[-1] if (st and recursion and rng.random() < 0.5) else rng.randrange(nsym)
+            if st and recursion and rng.random() < 0.5:
+                k = st[-1] if rng.random() < 0.5 else rng.choice(st)      # direct / mutual recursion
+            else:
+                k = rng.randrange(nsym)
             st.append(k)
             recs.append((tid, True, k, clock))
             budget -= 1
@@ -585,6 +588,32 @@ def run_case(objdir, c, d, cmdline=b"prog arg", with_cmdline=True):
     return p
 
 
+def func_shape(c, func):
+    """how FUNC occurs in the trace: tags for the boundaries of `graph FUNC` (tg->enabled)"""
+    tags = set()
+    stacks, outer = {}, {}
+    for tid, ent, k, tm in c["recs"]:
+        st = stacks.setdefault(tid, [])
+        if ent:
+            if c["syms"][k] == func:
+                inside = [c["syms"][x] for x in st]
+                if func in inside:
+                    tags.add("nested")
+                    tags.add("direct-recursion" if inside[-1] == func else "mutual-recursion")
+                else:
+                    outer[tid] = outer.get(tid, 0) + 1
+            st.append(k)
+        elif st:
+            st.pop()
+    if any(v >= 2 for v in outer.values()):
+        tags.add("entered-again-after-return")
+    if len(outer) >= 2:
+        tags.add("in-several-tasks")
+    if any(c["syms"][x] == func for st in stacks.values() for x in st):
+        tags.add("open-at-the-end")
+    return tags
+
+
 BT_HEAD = re.compile(rb" backtrace #(\d+): hit (\d+), time (.{10})$")
 BT_FRAME = re.compile(rb"   \[(\d+)\] (.*) \(0x([0-9a-f]+)\)$", re.S)
 
@@ -627,7 +656,11 @@ def run_graphf(objdir, c, d, rng, func=None):
     """`uftrace graph FUNC` on the directory written by run_case -> (func, rows | None)"""
     cands = [n for n in set(c["syms"]) if not n.startswith(b"-")]
     if func is None:
-        func = rng.choice(sorted(cands)) if (cands and rng.random() < 0.9) else b"no_such_function"
+        nested = sorted(n for n in cands if "nested" in func_shape(c, n))
+        if nested and rng.random() < 0.6:
+            func = rng.choice(nested)                  # a root function that is entered again while it runs
+        else:
+            func = rng.choice(sorted(cands)) if (cands and rng.random() < 0.9) else b"no_such_function"
     rc, out, err = uft(objdir, ["graph", "--no-pager", "-d", d, func])
     if rc != 0:
         raise ParseError("uftrace graph FUNC exited with %d: %r" % (rc, err[-300:]))
@@ -1120,6 +1153,24 @@ def run(ctx):
          "recs": [(100, True, 0, 1000), (100, True, 1, 1000), (100, False, 1, 1600), (100, True, 1, 1600),
                   (100, False, 1, 2200), (100, False, 0, 2200)]},
     ]
+    # `graph FUNC` with a root function that is entered again while it runs (start_graph must only count and reset
+    # on the OUTERMOST entry): direct recursion, mutual recursion, FUNC again after it returned, FUNC in two tasks
+    def seq(tid, spec, t0):
+        out, t = [], t0
+        for ent, k in spec:
+            t += 37
+            out.append((tid, ent, k, t))
+        return out
+    E, X = True, False
+    fixed += [
+        {"tasks": [(100, 100, None)], "syms": [b"main", b"f", b"g"], "sample": 5, "exe": "prog", "func": b"f",
+         "recs": seq(100, [(E, 0), (E, 1), (E, 1), (E, 1), (E, 2), (X, 2), (X, 1), (E, 2), (X, 2), (X, 1), (X, 1), (E, 1), (X, 1), (X, 0)], 1000)},
+        {"tasks": [(100, 100, None)], "syms": [b"main", b"a", b"b"], "sample": 5, "exe": "prog", "func": b"a",
+         "recs": seq(100, [(E, 0), (E, 1), (E, 2), (E, 1), (E, 2), (X, 2), (X, 1), (E, 1), (X, 1), (X, 2), (X, 1), (E, 2), (E, 1), (X, 1), (X, 2), (X, 0)], 1000)},
+        {"tasks": [(100, 100, None), (101, 100, None)], "syms": [b"main", b"f", b"g"], "sample": 5, "exe": "prog", "func": b"f",
+         "recs": seq(100, [(E, 0), (E, 1), (E, 2)], 1000) + seq(101, [(E, 1), (E, 1), (E, 2), (X, 2)], 2000)
+                 + seq(100, [(X, 2), (E, 1), (X, 1), (X, 1), (X, 0)], 3000) + seq(101, [(X, 1), (E, 2), (E, 1)], 4000)},
+    ]
     n = ctx.n(150, 1200)
     d = os.path.join(ctx.scratch, "dir")
     i = -1
@@ -1147,14 +1198,15 @@ def run(ctx):
             ctx.violation("an export of a well-formed trace could not be parsed back: %s" % e,
                           {"kind": "dir", "case": case_json(c)}, True)
             continue
-        if i % 3 != 2:
+        if i % 3 != 2 or c.get("func"):
             try:
-                gf = run_graphf(objdir, c, d, ctx.rng)
+                gf = run_graphf(objdir, c, d, ctx.rng, c.get("func"))
                 p["graphf"] = gf[:2]
                 p["texts"].append((gf[0], graph_section(gf[2])))
                 p["bts"] = (gf[0], parse_backtraces(gf[2]))
                 extra_tags.append("graph-func:" + ("not-called" if p["graphf"][1] is None else
                                                    "zero-time-leaf" if p["graphf"][1] == [] else "called"))
+                extra_tags += ["graph-func:" + t for t in sorted(func_shape(c, gf[0]))]
             except ParseError as e:
                 ctx.violation("`uftrace graph FUNC` output could not be parsed back: %s" % e,
                               {"kind": "dir", "case": case_json(c)}, True)
